@@ -357,6 +357,50 @@ fn tot_strategy() -> BoxedStrategy<TotCase> {
     .boxed()
 }
 
+fn decode_tot(u: &mut FuzzInput) -> TotCase {
+    // raw bytes as text (lossy), or bytes mapped onto the template alphabet
+    let n = u.n(64);
+    if u.bool() {
+        let bytes: Vec<u8> = (0..n).map(|_| u.u8()).collect();
+        TotCase { s: String::from_utf8_lossy(&bytes).into_owned() }
+    } else {
+        const A: [char; 24] = ['{', '}', ':', '.', '/', '!', '<', '^', '>', '0', '1', '5', '6', '9', 'a', 'b', 'm', 's', 'g', ' ', '\n', '\t', '\u{e9}', '_'];
+        TotCase { s: (0..n).map(|_| u.pick(&A)).collect() }
+    }
+}
+
+fn decode_fid(u: &mut FuzzInput) -> FidCase {
+    let mut parts = vec![];
+    while !u.empty() && parts.len() < 10 {
+        parts.push(match u.n(10) {
+            0..=3 => TPart::Lit((0..=u.n(6)).map(|_| u.pick(&['a', 'Z', '0', ' ', ':', '.', '/', '!', '<', '{', '}', '"', '\t', '\u{e9}', '\u{4e16}'])).collect()),
+            4 | 5 => TPart::BraceWs(if u.n(4) == 0 { '\t' } else { ' ' }),
+            6 => TPart::NewLine,
+            _ => {
+                let key = match u.n(7) {
+                    0..=3 => KeyRef::Custom(u.n(CUSTOM.len() - 1)),
+                    4 | 5 => KeyRef::Builtin(u.n(BUILTIN.len() - 1)),
+                    _ => KeyRef::Unknown(format!("u{}", (0..u.n(3)).map(|_| u.pick(&['x', 'y', '_', '.', '/', '7'])).collect::<String>())),
+                };
+                let spec = if u.n(9) < 3 {
+                    None
+                } else {
+                    let style = if u.n(9) < 3 { Some(u.pick(&["red", "on_blue", "bold.dim", "nonsense", "x1.y2"]).to_string()) } else { None };
+                    Some(Spec {
+                        align: [None, Some(Align::Left), Some(Align::Center), Some(Align::Right)][u.n(3)],
+                        width: if u.n(4) == 0 { None } else { Some(match u.n(11) { 0 => 255, 1 => 256, 2 => 65535, 3 => 65536, 4 => 70000, 5 => u.u32(), 6 => u.n(300) as u32, _ => u.n(23) as u32 }) },
+                        truncate: u.bool(),
+                        alt: if style.is_some() && u.bool() { Some("blue".into()) } else { None },
+                        style,
+                    })
+                };
+                TPart::Ph { key, spec }
+            }
+        });
+    }
+    FidCase { parts }
+}
+
 pub fn property() -> Property {
     let w = default_workers();
     Property {
@@ -378,6 +422,7 @@ pub fn property() -> Property {
                 signature: no_signature,
                 essential: &["accepted", "rejected", "accepted_with_brace"],
                 workers: w,
+                decode: Some(decode_tot),
             }),
             Box::new(Gen::<FidCase> {
                 name: "fidelity",
@@ -388,6 +433,7 @@ pub fn property() -> Property {
                 signature: no_signature,
                 essential: &["two_placeholders", "brace_ws_adjacent_to_literal", "multi_line", "escaped_braces", "unknown_key", "width", "truncate", "style", "width_gt_255"],
                 workers: w,
+                decode: Some(decode_fid),
             }),
         ],
     }
